@@ -329,7 +329,7 @@ pub fn slab(rec: &mut Recorder, rng: &mut Rng, thorough: bool, outdir: &str) {
                 let dest = rng.below(count as u64) as usize;
                 let mut src = rng.below(count as u64) as usize;
                 if src == dest { src = (dest + 1) % count; }
-                let c = rng.range(2, 255) as u8;
+                let c = if !checked_build() && rng.chance(1, 8) { rng.below(2) as u8 } else { rng.range(2, 255) as u8 };
                 let which = rng.below(3);
                 ops_txt.push(match which { 0 => format!("a:{dest}:{src}"), 1 => format!("m:{dest}:{c}"), _ => format!("f:{dest}:{src}:{c}") });
                 match which {
@@ -398,7 +398,7 @@ pub fn slab(rec: &mut Recorder, rng: &mut Rng, thorough: bool, outdir: &str) {
         let start = rng.below(count as u64) as usize;
         let nblk = rng.range(0, (count - start) as u64) as usize;
         let blk = rng.bytes(ss * nblk);
-        let c = rng.below(256) as u8;
+        let c = if it % 4 == 1 { (it / 4 % 2) as u8 } else { rng.below(256) as u8 };
         let (s2, o2, i2, b2) = (syms.clone(), order.clone(), idx.clone(), blk.clone());
         let r = guarded(move || {
             let mk = || SymbolSlab::from_symbols(s2.iter().map(|s| raptorq::Symbol::new(s.clone())).collect(), ss);
@@ -418,7 +418,8 @@ pub fn slab(rec: &mut Recorder, rng: &mut Rng, thorough: bool, outdir: &str) {
             x.mulassign_scalar(&Octet::new(c));
             let muld = x.as_bytes().to_vec();
             let mut x = raptorq::Symbol::new(s2[0].clone());
-            if c >= 2 { x.fused_addassign_mul_scalar(&y, &Octet::new(c)); }
+            // (checked builds refuse the scalars 0 and 1 here by a debug assertion; unchecked builds must compute them)
+            if c >= 2 || !checked_build() { x.fused_addassign_mul_scalar(&y, &Octet::new(c)); }
             let fmad = x.as_bytes().to_vec();
             let z = raptorq::Symbol::zero(ss);
             (plain, mapped, gathered, copied, added, muld, fmad, z.len(), z.is_empty(), z.as_bytes().iter().all(|b| *b == 0))
@@ -435,7 +436,7 @@ pub fn slab(rec: &mut Recorder, rng: &mut Rng, thorough: bool, outdir: &str) {
                 if copied != want { bad.push("copy_block_from"); }
                 if added != syms[0].iter().zip(last).map(|(a, b)| a ^ b).collect::<Vec<u8>>() { bad.push("Symbol += &Symbol"); }
                 if muld != syms[0].iter().map(|a| pmul(c, *a)).collect::<Vec<u8>>() { bad.push("Symbol::mulassign_scalar"); }
-                if c >= 2 && fmad != syms[0].iter().zip(last).map(|(a, b)| a ^ pmul(c, *b)).collect::<Vec<u8>>() { bad.push("Symbol::fused_addassign_mul_scalar"); }
+                if (c >= 2 || !checked_build()) && fmad != syms[0].iter().zip(last).map(|(a, b)| a ^ pmul(c, *b)).collect::<Vec<u8>>() { bad.push("Symbol::fused_addassign_mul_scalar"); }
                 if zl != ss || ze != (ss == 0) || !zz { bad.push("Symbol::zero"); }
                 for b in bad { rec.impl_violation(format!("{b} differs from its element-wise definition: {count} symbols of {ss} bytes, mapping {:?}, indices {:?}, scalar {c}", order, idx)); }
             }
